@@ -55,7 +55,16 @@ theorem mach_block_witness_valid (e : Env) (ms : MNet) (hr : MReachable e ms) (e
     ∀ t ∈ sigs, t.2 = true := by
   obtain ⟨as, inv⟩ := netinv_reachable e ms hr
   obtain ⟨_, _, hblk⟩ := netinv_step inv ev inp hen
-  exact hblk b sigs hb
+  exact (hblk b sigs hb).1
+
+/-- … and it carries EXACTLY M of them, in validator order: whatever the order in which the Commits reached the machine
+(a validator that is last within its view holds N > M when it builds the block), on the whole network of machines. -/
+theorem mach_block_witness_exact (e : Env) (ms : MNet) (hr : MReachable e ms) (ev : NEv) (inp : Inp)
+    (hen : NEnabled e ms inp ev) (b : Block) (sigs : List (Nat × Bool)) (hb : Out.block b sigs ∈ evOuts e ms inp ev) :
+    sigs.length = e.m ∧ sigs.Pairwise (fun s t => s.1 < t.1) := by
+  obtain ⟨as, inv⟩ := netinv_reachable e ms hr
+  obtain ⟨_, _, hblk⟩ := netinv_step inv ev inp hen
+  exact (hblk b sigs hb).2
 
 /-- a machine signs (holds its own Commit for) only what its abstract node signed: the Commit a machine
 broadcast at its height is a block M validators prepared (commits_carry_prepared of the guarded-command model
